@@ -36,6 +36,34 @@ class Term:
         return (Term, (self.f, self.args))
 
 
+@__import__("dataclasses").dataclass(frozen=True, repr=False)
+class DBox:
+    """A user VALUE of a rich type: a dataclass instance carrying one term.  To the models it is the term it carries (`freeze`, `enc` and
+    `repr` look through it), so handing a function `DBox(t)` instead of `t` changes no prediction - but library code that transforms values
+    on their way through serialisation (`dataclasses.asdict` turns every dataclass instance, also nested in containers, into a plain dict),
+    comparison or hashing turns it into something `enc` reads differently.  Used for argument values by the properties whose statements are
+    about values surviving a round trip (C13: `ErrorSnapshot.save_to_file/load_from_file`; seeded change C13-s4-B)."""
+
+    v: object
+
+    def __repr__(self):
+        return repr(self.v)
+
+
+def box_some(name, v):
+    """Deterministic choice (by the argument's name: no random stream is touched): about one scalar argument in three, and the elements
+    of about one array argument in three, are handed over boxed."""
+    import zlib
+    if zlib.crc32(str(name).encode()) % 3:
+        return v
+    if isinstance(v, np.ndarray) and v.dtype == object:
+        out = np.empty(v.size, dtype=object)
+        for i, x in enumerate(v.flat):
+            out[i] = DBox(x) if isinstance(x, Term) else x
+        return out.reshape(v.shape)
+    return DBox(v) if isinstance(v, Term) else v
+
+
 # ------------------------------------------------------------------------------------------------ interpreted functions
 # Most generated user functions are uninterpreted (they return a free `Term`).  A function whose NAME ends in one of the
 # suffixes below is interpreted as the constant function returning that (falsy) value: `None`, `0`, `False`, `""` — the values
@@ -98,6 +126,8 @@ def _const_call(j):
 
 def freeze(v):
     """A hashable stand-in for any value a function may receive."""
+    if isinstance(v, DBox):
+        return freeze(v.v)
     if v is np.ma.masked:
         return Term("$masked", ())
     if isinstance(v, np.ma.MaskedArray):
@@ -116,6 +146,8 @@ def freeze(v):
 
 def enc(v):
     """JSON encoding of a value (see module docstring)."""
+    if isinstance(v, DBox):
+        return enc(v.v)
     if v is np.ma.masked:
         return "M"
     if isinstance(v, Term):
